@@ -457,3 +457,33 @@ def serialised_types(prog, sl, walker=walk):
                 continue
             go(f, loc['ty'], sl.operand(f, c.args[0]), c, 0)
     return rows
+
+
+# --- R1: which function a serialiser call belongs to ------------------------------------------------------------------
+def sink_owner(prog, f, owners, _seen=None):
+    """the function of `owners` that f's code belongs to: f itself, the function a closure is written in, or — for a
+    private (not `pub`, not a trait implementation) workspace function — the single member of `owners` that every one
+    of its uses (direct calls and references to it as a function item, followed through further private functions)
+    ends in.  A triage stated for a public function ("what this serialiser produces goes to fd 3") covers the phases
+    it was split into as long as nobody else can reach them; None as soon as one use is outside (or there is none)"""
+    _seen = _seen if _seen is not None else set()
+    if f.path in owners:
+        return f.path
+    if f.path in _seen:
+        return None
+    _seen = _seen | {f.path}
+    if f.kind == 'Closure':
+        p = prog.fns.get(f.parent)
+        return sink_owner(prog, p, owners, _seen) if p is not None else None
+    if f.kind not in ('Fn', 'AssocFn') or f.vis in ('pub', 'n/a') or f.impl_trait or f.crate not in CRATES or f.derived:
+        return None
+    found = set()
+    n = 0
+    for cs in prog.callers().get(f.path, []):
+        if cs.fn.path == f.path:
+            continue
+        n += 1
+        found.add(sink_owner(prog, cs.fn, owners, _seen))
+    if n and len(found) == 1 and None not in found:
+        return next(iter(found))
+    return None
